@@ -30,10 +30,25 @@ Theorem C09_release_wakes_first_waiter : forall s q w m p,
   get_loop q (loops (release s)) = Some (mkLoop q (LGranted m) p) /\ waiters (release s) = w /\ value (release s) = value s.
 Proof. exact release_wakes_first_waiter. Qed.
 
-(* no lost wake-up: while a loop waits for a slot, all tasks_limit slots are in use by tasks or by loops about to spawn *)
+(* no lost wake-up: while a loop waits for a slot, either all tasks_limit slots are in use by tasks or by loops about to
+   spawn (each of which releases one, and a release hands it to the first waiter at once), or a loop that was handed a slot
+   has not resumed yet - CPython 3.12 keeps the semaphore locked for newcomers until it has - and when it resumes with a
+   spare slot in the semaphore it passes that slot to the first waiter.  (The second alternative was missing from the
+   model until the thorough tier produced a real trace with it: two tasks ending while one loop waits, a second loop
+   arriving before the first has resumed.) *)
 Theorem C09_no_lost_wakeup : forall lim mx qs es s, 0 < lim -> NoDup qs -> run_ev (init lim mx qs) es = Some s ->
-  waiters s <> [] -> value s = 0 /\ len (tasks s) + slots_held (loops s) = lim.
+  waiters s <> [] -> (value s = 0 /\ len (tasks s) + slots_held (loops s) = lim) \/ existsb is_granted (loops s) = true.
 Proof. exact no_lost_wakeup. Qed.
+
+Theorem C09_unpause_passes_spare_slot : forall s q m p s',
+  get_loop q (loops s) = Some (mkLoop q (LGranted m) p) -> 0 < value s -> step_ev s (EvUnpause q) = Some s' ->
+  s' = wake_next (upd s (value s) (waiters s) (set_loop q (LHold m) false (loops s)) (tasks s) (started s) (processed s) (stop s) (backlog s) (leaked s)).
+Proof. exact unpause_passes_spare_slot. Qed.
+
+Theorem C09_wake_grants_first_waiter : forall s q w m p,
+  waiters s = q :: w -> get_loop q (loops s) = Some (mkLoop q (LWaiting m) p) ->
+  get_loop q (loops (wake_next s)) = Some (mkLoop q (LGranted m) p) /\ waiters (wake_next s) = w /\ value (wake_next s) = value s - 1.
+Proof. exact wake_grants_first_waiter. Qed.
 
 (* progress (PARTIAL: enabledness, the fairness of the event loop is assumed): a loop that has work and is not waiting
    for a slot always has an enabled step - a deliverable message is taken, a taken message acquires or waits, a granted
@@ -56,4 +71,6 @@ Print Assumptions C09_task_end_releases.
 Print Assumptions C09_pause_iff_locked.
 Print Assumptions C09_release_wakes_first_waiter.
 Print Assumptions C09_no_lost_wakeup.
+Print Assumptions C09_unpause_passes_spare_slot.
+Print Assumptions C09_wake_grants_first_waiter.
 Print Assumptions C09_loop_not_stuck.
